@@ -2,6 +2,8 @@
 
 package topics
 
+import "github.com/mdzio/go-mqtt/message"
+
 // Machine-checked contracts for package topics (verification build only); read by /verif/govc.
 
 // ---------------------------------------------------------------- the provider interface, as the connection handlers see it
@@ -77,12 +79,13 @@ package topics
 // Retained appends the retained messages matching a filter to *msgs.
 //@ iface Provider.Retained
 //@   trusted
+//@   flag impls vrefRetained
 //@   results err
 //@   flag args self, topic, msgs
 //@   ensures len(*msgs) >= old(len(*msgs)) && forall(old(len(*msgs)), len(*msgs), func(i int) bool { return (*msgs)[i] != nil && len((*msgs)[i].mtypeflags) == 1 })
 //@   ensures[prefix] forall(0, old(len(*msgs)), func(i int) bool { return (*msgs)[i] == old((*msgs)[i]) })
 //@   ensures[arrays] fresh(arr(*msgs)) || arr(*msgs) == arr(old(*msgs))
-//@   modifies *msgs, capelems(old(*msgs))
+//@   modifies *msgs, allelems(*message.PublishMessage), heap("GF.nrm"), heap("GF.nar")
 
 //@ func (*Manager).Retained
 //@   results err
@@ -90,7 +93,7 @@ package topics
 //@   ensures len(*msgs) >= old(len(*msgs)) && forall(old(len(*msgs)), len(*msgs), func(i int) bool { return (*msgs)[i] != nil && len((*msgs)[i].mtypeflags) == 1 })
 //@   ensures[prefix] forall(0, old(len(*msgs)), func(i int) bool { return (*msgs)[i] == old((*msgs)[i]) })
 //@   ensures[arrays] fresh(arr(*msgs)) || arr(*msgs) == arr(old(*msgs))
-//@   modifies *msgs, capelems(old(*msgs))
+//@   modifies *msgs, allelems(*message.PublishMessage), heap("GF.nrm"), heap("GF.nar")
 
 // ---------------------------------------------------------------- topic level scanner (C06)
 // k = index of the first '/' in topic (len(topic) if none). The level is topic[:k] and the rest topic[k+1:];
@@ -121,7 +124,7 @@ package topics
 
 // Type invariant of the child maps of the retained trie: every child link leads to a node that has a map.
 //@ define vdefRTrie(m)
-//@   is allentries(m, func(k string, v *rnode) bool { return v != nil && gfield(v, "isrnode") == 1 }) && allobjs(rnode, "isrnode", func(x *rnode) bool { return x != nil && x.rnodes != nil })
+//@   is allentries(m, func(k string, v *rnode) bool { return v != nil && gfield(v, "isrnode") == 1 }) && allobjs(rnode, "isrnode", func(x *rnode) bool { return x != nil && x.rnodes != nil && (x.msg == nil || len(x.msg.mtypeflags) == 1) })
 
 // What rinsert needs of the message it stores (the preconditions of PublishMessage.Len/Encode).
 //@ define vdefPubIn(msg)
@@ -311,10 +314,16 @@ package topics
 //@   requires vdefRNode(rn) && msgs != nil
 //@   atcall (*rnode).allRetained requires[C08:children] callee_rn == n && callee_msgs == msgs
 //@   loop 1 invariant vdefRNode(rn) && gfield(0, "nar") >= old(gfield(0, "nar")) && len(*msgs) >= old(len(*msgs)) && msgs != nil && (old(rn.msg) != nil ==> len(*msgs) >= old(len(*msgs))+1)
+//@   loop 1 invariant[C08:appended-objects] forall(old(len(*msgs)), len(*msgs), func(i int) bool { return (*msgs)[i] != nil && len((*msgs)[i].mtypeflags) == 1 })
+//@   loop 1 invariant[C08:prefix] forall(0, old(len(*msgs)), func(i int) bool { return (*msgs)[i] == old((*msgs)[i]) })
+//@   loop 1 invariant[arrays] (fresh(arr(*msgs)) || arr(*msgs) == arr(old(*msgs)))
 //@   loop 1 step[C08:each-child] gfield(0, "nar") > old(gfield(0, "nar"))
 //@   ensures[inv] vdefRNode(rn)
 //@   ensures[C08:own-message] old(rn.msg) != nil ==> len(*msgs) >= old(len(*msgs))+1
 //@   ensures[C08:all-children] allvisited()
+//@   ensures[C08:appended-objects] forall(old(len(*msgs)), len(*msgs), func(i int) bool { return (*msgs)[i] != nil && len((*msgs)[i].mtypeflags) == 1 })
+//@   ensures[C08:prefix] forall(0, old(len(*msgs)), func(i int) bool { return (*msgs)[i] == old((*msgs)[i]) })
+//@   ensures[arrays] (fresh(arr(*msgs)) || arr(*msgs) == arr(old(*msgs)))
 //@   ensures[C08:monotone] len(*msgs) >= old(len(*msgs))
 //@   ensures[ghostdef-ar] gfield(0, "nar") > old(gfield(0, "nar"))
 //@   modifies *msgs, allelems(*message.PublishMessage), heap("GF.nar")
@@ -326,10 +335,16 @@ package topics
 //@   atcall inloop (*rnode).rmatch requires[C08:swc] level == SWC && level != MWC && callee_rn == n && sameslice(callee_topic, rem) && callee_msgs == msgs && len(rem) < len(topic)
 //@   atcall outloop (*rnode).rmatch requires[C08:literal] level != SWC && level != MWC && haskey(rn.rnodes, level) && callee_rn == rn.rnodes[level] && sameslice(callee_topic, rem) && callee_msgs == msgs && len(rem) < len(topic)
 //@   loop 1 invariant vdefRNode(rn) && gfield(0, "nrm") >= old(gfield(0, "nrm")) && len(*msgs) >= old(len(*msgs)) && msgs != nil && len(topic) != 0 && level == SWC
+//@   loop 1 invariant[C08:appended-objects] forall(old(len(*msgs)), len(*msgs), func(i int) bool { return (*msgs)[i] != nil && len((*msgs)[i].mtypeflags) == 1 })
+//@   loop 1 invariant[C08:prefix] forall(0, old(len(*msgs)), func(i int) bool { return (*msgs)[i] == old((*msgs)[i]) })
+//@   loop 1 invariant[arrays] (fresh(arr(*msgs)) || arr(*msgs) == arr(old(*msgs)))
 //@   loop 1 step[C08:each-child] gfield(0, "nrm") > old(gfield(0, "nrm"))
 //@   ensures[inv] vdefRNode(rn)
 //@   ensures[C08:leaf] len(topic) == 0 ==> err == nil && ((old(rn.msg) != nil && len(*msgs) == old(len(*msgs))+1 && (*msgs)[old(len(*msgs))] == old(rn.msg)) || (old(rn.msg) == nil && len(*msgs) == old(len(*msgs))))
 //@   ensures[C08:leaf-prefix] len(topic) == 0 ==> forall(0, old(len(*msgs)), func(i int) bool { return (*msgs)[i] == old((*msgs)[i]) })
+//@   ensures[C08:appended-objects] forall(old(len(*msgs)), len(*msgs), func(i int) bool { return (*msgs)[i] != nil && len((*msgs)[i].mtypeflags) == 1 })
+//@   ensures[C08:prefix] forall(0, old(len(*msgs)), func(i int) bool { return (*msgs)[i] == old((*msgs)[i]) })
+//@   ensures[arrays] (fresh(arr(*msgs)) || arr(*msgs) == arr(old(*msgs)))
 //@   ensures[C08:monotone] len(*msgs) >= old(len(*msgs))
 //@   ensures[ghostdef-rm] gfield(0, "nrm") > old(gfield(0, "nrm"))
 //@   modifies *msgs, allelems(*message.PublishMessage), heap("GF.nrm"), heap("GF.nar")
@@ -381,4 +396,20 @@ package topics
 //@   atcall (*rnode).rmatch requires[C08:same-request] callee_rn == mt.rroot && sameslice(callee_topic, topic) && callee_msgs == msgs
 //@   ensures[C08:appends] len(*msgs) >= old(len(*msgs))
 //@   ensures[inv] vdefRNode(mt.rroot)
+//@   ensures[C08:appended-objects] forall(old(len(*msgs)), len(*msgs), func(i int) bool { return (*msgs)[i] != nil && len((*msgs)[i].mtypeflags) == 1 })
+//@   ensures[C08:prefix] forall(0, old(len(*msgs)), func(i int) bool { return (*msgs)[i] == old((*msgs)[i]) })
+//@   ensures[arrays] (fresh(arr(*msgs)) || arr(*msgs) == arr(old(*msgs)))
 //@   modifies *msgs, allelems(*message.PublishMessage), heap("GF.nrm"), heap("GF.nar")
+
+// ---------------------------------------------------------------- refinement wrappers (interface contract of Provider)
+// Provider.Retained as the connection handlers assume it, proved for the in-memory provider under its object invariant
+// (vdefMT: established by NewMemProvider and re-established by every method - both proved; that it holds whenever a
+// method is entered from outside the package is the usual visible-state argument: the tries are reachable only through
+// unexported fields and every function that writes them is one of these methods).
+func vrefRetained(self Provider, topic []byte, msgs *[]*message.PublishMessage) error {
+	return self.(*MemTopics).Retained(topic, msgs)
+}
+
+//@ func vrefRetained
+//@   flag like Provider.Retained
+//@   requires typeis(self, *MemTopics) && ifaceval(self, *MemTopics) != nil && vdefMT(ifaceval(self, *MemTopics)) && msgs != nil
